@@ -39,6 +39,9 @@ func verifRunHistory(inputs []string, skip []bool, a, b int64) []verifStep {
 		out.Reset()
 		_, panicked, errs, _ := EvalOne(context.Background(), s, in, out, opts)
 		res[i] = verifStep{out: out.String(), errs: len(errs), panicked: panicked}
+		if why := eval.VerifAtTopLevel(s, out); why != "" {
+			vAssert(false, "session/state-not-back-at-top-level/"+why)
+		}
 	}
 	return res
 }
